@@ -364,7 +364,7 @@ func (g *treeGen) stack(depth int) Node {
 		"nspad": g.rng.Intn(3) == 0, "lonce": g.rng.Intn(4) == 0, "sym": []any{}, "delim": []any{}, "enc": g.enc(),
 		"neg": false, "fwd": false, "mtx": false, "cap": 0}
 	if k != "LIST" && g.rng.Intn(3) == 0 {
-		n["sym"] = g.toks(1, 2, []string{"&", "|", "!", "+", "U2"})
+		n["sym"] = g.toks(1, 2, []string{"&", "|", "!", "+", "U2", "X", "o"})
 	}
 	if k == "LIST" && g.rng.Intn(2) == 0 {
 		n["delim"] = g.toks(1, 2, []string{",", ";", "SP", "|"})
